@@ -450,3 +450,10 @@ func init() {
 	addMutant(Mutant{Name: "c14-unkeyed-entries-not-visited", Property: "C14", File: "ygot/struct_validation_map.go",
 		Old: "\t\t\t\tsv := e.Elem()\n\t\t\t\t_ = pruneBranchesInternal(sv.Type(), sv)\n", New: "\t\t\t\tsv := e.Elem()\n\t\t\t\t_ = sv\n", Expect: "descends:slice"})
 }
+
+func init() {
+	addMutant(Mutant{Name: "c18-decimal-no-lexical-check", Property: "C18", File: "ytypes/leaf.go",
+		Old: "\t\tif !decimal64Regexp.MatchString(value.(string)) {\n\t\t\treturn nil, fmt.Errorf(\"error parsing %v for schema %s: not a decimal64 value\", value, schema.Name)\n\t\t}\n", New: "\t\t_ = decimal64Regexp\n", Expect: "decimal64:lexical"})
+	addMutant(Mutant{Name: "c18-decimal-pattern-allows-exponent", Property: "C18", File: "ytypes/leaf.go",
+		Old: "regexp.MustCompile(`^[+-]?[0-9]+(\\.[0-9]+)?$`)", New: "regexp.MustCompile(`^[+-]?[0-9]+(\\.[0-9]+)?(e[0-9]+)?$`)", Expect: "decimal64:pattern"})
+}
